@@ -63,9 +63,18 @@ class Deliberate(Exception):
 def use_intermediate(inc, rng):
     """Instances of the not yet complete structure exist before it is extended further."""
     try:
-        inc()
+        o = inc()
         if rng.random() < 0.5:
-            inc(bytes(64))
+            o = inc(bytes(64))
+        # ... and are written, compared, hashed and measured (whatever that computes per class must not be kept)
+        o.dumps()
+        o == inc()
+        len(o)
+        bool(o)
+        try:
+            hash(o)
+        except TypeError:
+            pass
     except Exception:  # noqa: BLE001
         pass
 
@@ -374,6 +383,121 @@ def special_sequences(ctx, rng):
                 k = next(j for j, (a, b) in enumerate(zip(got, want)) if a != b)
                 ctx.violation("behaviour", "array-or-container-of-an-extended-structure-keeps-the-intermediate-state",
                               dict(det, got=repr(got[k])[:300], want=repr(want[k])[:300]))
+    # (d) explicit offsets and bit-field rules in later commits: a field at an explicit forward offset after a
+    # variable-size one makes the layout static again; a bit-field that would straddle its unit is refused in
+    # whichever commit it arrives
+    from dissect.cstruct import Field
+
+    for compiled in (True, False):
+        for align in (False, True):
+            for split in ([2, 2], [1, 1, 2], [2, 1, 1], [4], [1, 3], [3, 1]):
+                ctx.evaluation(("offset-after-dynamic", compiled, align, repr(split)))
+                ctx.cell("explicit-offset-after-dynamic-field")
+                det = {"workload": "special-sequences", "compiled": compiled, "align": align, "split": split,
+                       "part": "offset-after-dynamic"}
+                try:
+                    cs = lib.cstruct()
+                    specs = [("n", cs.uint8, None, None), ("data", cs.char[lib.Expression(cs, "n")] if hasattr(lib, "Expression")
+                              else None, None, None), ("tail", cs.uint32, None, 16), ("after", cs.uint16, None, None)]
+                    from dissect.cstruct.expression import Expression as _E
+
+                    specs[1] = ("data", cs.char[_E(cs, "n")], None, None)
+                    one = cs._make_struct("T", [Field(n_, t_, bits=b_, offset=o_) for n_, t_, b_, o_ in specs], align=align,
+                                          base=Structure)
+                    inc = cs._make_struct("T", [], align=align, base=Structure)
+                    if compiled:
+                        one, inc = compiler.compile(one), compiler.compile(inc)
+                    i = 0
+                    for k in split:
+                        if k == 1:
+                            n_, t_, b_, o_ = specs[i]
+                            inc.add_field(n_, t_, bits=b_, offset=o_)
+                        else:
+                            with inc.start_update():
+                                for n_, t_, b_, o_ in specs[i:i + k]:
+                                    inc.add_field(n_, t_, bits=b_, offset=o_)
+                        i += k
+                    data = bytes([3]) + b"abc" + bytes(range(40))
+
+                    def facts(T_):
+                        o = T_(data)
+                        return (T_.size, T_.dynamic, [f.offset for f in T_.__fields__], source_of(T_), int(o.tail), int(o.after),
+                                o.dumps(), T_[2].size)
+                    got, want = facts(inc), facts(one)
+                except Exception as e:  # noqa: BLE001
+                    ctx.violation("build", f"incremental-build-raises:{type(e).__name__}", dict(det, error=lib.exc_sig(e)))
+                    continue
+                if got != want:
+                    k = next(j for j, (a, b) in enumerate(zip(got, want)) if a != b)
+                    ctx.violation("behaviour", "incremental-structure-behaves-differently",
+                                  dict(det, got=repr(got[k])[:300], want=repr(want[k])[:300]))
+                else:
+                    ctx.event("offset_after_dynamic_checked")
+            # straddling bit-field arriving in a later commit, also after the structure became dynamic
+            for lead in ([], [("n", "uint8", None), ("d", "dyn", None)]):
+                ctx.evaluation(("late-straddle", compiled, align, len(lead)))
+                ctx.cell("straddling-bit-field-in-a-later-commit")
+                try:
+                    cs = lib.cstruct()
+                    from dissect.cstruct.expression import Expression as _E
+
+                    inc = cs._make_struct("T", [], align=align, base=Structure)
+                    if compiled:
+                        inc = compiler.compile(inc)
+                    for n_, t_, b_ in lead:
+                        inc.add_field(n_, cs.char[_E(cs, "n")] if t_ == "dyn" else getattr(cs, t_), bits=b_)
+                    inc.add_field("a", cs.uint8, bits=5)
+                    try:
+                        inc.add_field("b", cs.uint8, bits=5)
+                        refused = False
+                    except Exception:  # noqa: BLE001
+                        refused = True
+                    inc.add_field("c", cs.uint8, bits=3)         # fits: the refused field left nothing behind
+                    ok = refused and [f.name for f in inc.__fields__][-2:] == ["a", "c"]
+                except Exception as e:  # noqa: BLE001
+                    ctx.violation("build", f"incremental-build-raises:{type(e).__name__}",
+                                  {"workload": "special-sequences", "part": "late-straddle", "error": lib.exc_sig(e)})
+                    continue
+                if not ok:
+                    ctx.violation("behaviour", "straddling-bit-field-accepted-in-a-later-commit",
+                                  {"workload": "special-sequences", "part": "late-straddle", "compiled": compiled,
+                                   "align": align, "after_dynamic_field": bool(lead)})
+                else:
+                    ctx.event("late_straddles_refused")
+    # (e) a union that is written, compared and measured while incomplete and then extended with a larger member
+    for endian in "<>":
+        for order in (["b8", "w16", "d32", "q64"], ["q64", "b8"], ["w16", "arr", "q64"], ["b8", "st", "q64"]):
+            ctx.evaluation(("union-extended-after-use", endian, repr(order)))
+            ctx.cell("union-written-before-extension")
+            det = {"workload": "special-sequences", "part": "union-extended-after-use", "endian": endian, "order": order}
+            try:
+                cs = lib.cstruct(endian=endian)
+                cs.load("struct st_t { uint8 a; uint16 b; };")
+                types_ = {"b8": cs.uint8, "w16": cs.uint16, "d32": cs.uint32, "q64": cs.uint64, "arr": cs.uint8[3], "st": cs.st_t}
+                one = cs._make_union("U", [Field(n_, types_[n_]) for n_ in order])
+                inc = cs._make_union("U", [])
+                data = bytes(range(1, 9))
+                for n_ in order:
+                    inc.add_field(n_, types_[n_])
+                    o = inc(data)
+                    o.dumps(), bytes(o), len(o), o == inc(data), bool(o)
+                    inc().dumps()
+
+                def facts(U_):
+                    o = U_(data)
+                    kw = {order[-1]: getattr(o, order[-1])}
+                    return (len(U_), U_.alignment, o.dumps(), bytes(o) == o._buf, U_(**kw).dumps(), U_().dumps(),
+                            U_(data) == U_(data[:-1] + b"\xff"), [f.name for f in U_.__fields__])
+                got, want = facts(inc), facts(one)
+            except Exception as e:  # noqa: BLE001
+                ctx.violation("build", f"incremental-build-raises:{type(e).__name__}", dict(det, error=lib.exc_sig(e)))
+                continue
+            if got != want:
+                k = next(j for j, (a, b) in enumerate(zip(got, want)) if a != b)
+                ctx.violation("behaviour", "incremental-structure-behaves-differently",
+                              dict(det, got=repr(got[k])[:300], want=repr(want[k])[:300]))
+            else:
+                ctx.event("unions_extended_after_use_checked")
     # (c) a container declared *before* its member type is extended: afterwards it is the container of the complete
     # member type (size, offsets, both readers, writer) -- nothing of the member's intermediate size survives
     for compiled in (True, False):
@@ -405,6 +529,27 @@ def special_sequences(ctx, rng):
                               dict(det, got=repr(got[k])[:300], want=repr(want[k])[:300]))
             else:
                 ctx.event("containers_follow_member_extension")
+    # (c') the same mechanism within a single load(): an array of the structure itself is made while the structure is
+    # still the empty placeholder and keeps the placeholder's alignment
+    for compiled in (True, False):
+        ctx.evaluation(("self-array-alignment", compiled))
+        ctx.cell("self-referential-array-member")
+        det = {"workload": "special-sequences", "compiled": compiled, "part": "self-referential-array-member"}
+        try:
+            cs = lib.load("struct N { uint32 v; uint8 n; N kids[n]; };\nstruct M { uint32 v; uint8 n; uint8 kids[0]; };\n"
+                          "struct N2 { uint32 v; uint8 n; M kids[n]; };", "<", True, compiled)
+            got = [(f.name, f.offset, f.alignment) for f in cs.N.__fields__]
+            want = [(f.name, f.offset, f.alignment) for f in cs.N2.__fields__]
+            d1 = cs.N(v=1, n=1, kids=[cs.N(v=2, n=0)]).dumps()
+            d2 = cs.N2(v=1, n=1, kids=[cs.M(v=2, n=0)]).dumps()
+        except Exception as e:  # noqa: BLE001
+            ctx.violation("build", f"incremental-build-raises:{type(e).__name__}", dict(det, error=lib.exc_sig(e)))
+            continue
+        if got != want or d1 != d2:
+            ctx.violation("behaviour", "K13:array-of-the-structure-itself-keeps-the-alignment-of-the-empty-placeholder",
+                          dict(det, got=repr(got), want=repr(want), dump=d1.hex(), want_dump=d2.hex()))
+        else:
+            ctx.event("self_array_alignment_checked")
 
 
 def run(ctx):
